@@ -42,7 +42,7 @@ class Scn:
         self.stats[k] = self.stats.get(k, 0) + 1
 
     # -------------------------------------------------------------------------------------------------
-    def sync(self, *opts, nocopy=False, prehash=False):
+    def sync(self, *opts, nocopy=False, prehash=False, nokill=False):
         """a sync with the model tie; returns (Result, content after) or (None, None) after a violation"""
         w = self.w
         if self.model and self.ok and c11_model.flush_drift(self):     # the previous sync passed every oracle: MODEL-DRIFT
@@ -51,7 +51,7 @@ class Scn:
         st0 = w.content()
         lst = w.listing()
         if self.model:
-            r = c11_model.sync_with_model(self, st0, lst, list(opts), nocopy=nocopy, prehash=prehash)
+            r = c11_model.sync_with_model(self, st0, lst, list(opts), nocopy=nocopy, prehash=prehash, nokill=nokill)
             if r is False:
                 return None, None
         else:
@@ -103,7 +103,7 @@ class Scn:
         for i in range(rng.randint(1, 3)):
             w.write('d%d' % rng.randint(1, w.arr.nd), rng.choice(['f0', 'dx/f1', 'f2']), rng.randbytes(rng.choice(MSIZES)))
         sub = rng.choice(['a', 'da/a', 'da/in/a'])
-        w.write('d1', sub, rng.randbytes(rng.choice(MSIZES)), w.stamp(zero_ns=nsec_zero))
+        w.write('d1', sub, rng.randbytes(0 if self.cfg.get('empty_source') else rng.choice(MSIZES)), w.stamp(zero_ns=nsec_zero))
         w.log.append(['source', 'd1', sub, 'nsec0' if nsec_zero else 'nsec'])
         return 'd1', sub
 
@@ -127,7 +127,7 @@ class Scn:
             same_path = False
         self.plant(td, tsub, sd, ssub, decoy=decoy)
         # the rule of the property statement / DESIGN: name (or, with zero nanoseconds, path) + size + time-stamp of a fully hashed file
-        expect_copy = ((tsub == ssub) or not nsec_zero) and not other_name
+        expect_copy = ((tsub == ssub) or not nsec_zero) and not other_name and not self.cfg.get('empty_source')     # a file without blocks has no hashes to inherit
         r = w.run('diff'); self.ncmd += 1
         cnt = counters(r)
         if r.rc != 2 or cnt['copied'] != (1 if expect_copy else 0) or cnt['added'] != (0 if expect_copy else 1):
@@ -233,6 +233,12 @@ class Scn:
         if not usable:
             a.store[(sd, tsub)] = []          # a new path for the tool: the only version it can ever sync is the rewritten one
             a.note_version(sd, tsub)
+        rd = w.run('diff'); self.ncmd += 1
+        cd = counters(rd)
+        want = {'moved': 1} if usable else ({'copied': 1, 'removed': 1} if not nsec_zero else {'added': 1, 'removed': 1})
+        if rd.rc != 2 or any(cd[k] != v for k, v in want.items()):
+            return self.bad('rename_classified', 'a file renamed into another directory (inodes %s, nanoseconds %s) is classified %s, expected %s'
+                            % ('usable' if usable else 'not usable', 'zero' if nsec_zero else 'non-zero', cd, want))
         r, st = self.sync()
         if r is None:
             return
@@ -346,15 +352,36 @@ class Scn:
                 os.unlink(q)
             w.write('d1', 'f', data, m)
         else:
-            # invisible by the property's own words when the inode is kept: only the verdict of diff is judged
-            with open(q, 'r+b') as fh:
-                fh.write(data)
-            os.utime(q, ns=(m, m))
-            w.log.append(['rewrite-in-place-same-stamp', 'd1', 'f'])
+            # same path, size and time-stamp: identity by the property's own words (with usable inodes a new inode is a `restore`)
+            usable = w.inodes_usable(w.content(), 'd1')
+            if how == 'recreate':
+                old = open(q, 'rb').read()
+                os.rename(q, q + '.old')
+                with open(q, 'wb') as fh:
+                    fh.write(old)
+                os.unlink(q + '.old')
+                os.utime(q, ns=(m, m))
+                w.log.append(['restored-from-backup-same-stamp-new-inode', 'd1', 'f'])
+            else:
+                with open(q, 'r+b') as fh:
+                    fh.write(data)
+                os.utime(q, ns=(m, m))
+                self.trusted.add(('d1', 'f'))
+                w.log.append(['rewrite-in-place-same-stamp', 'd1', 'f'])
             r = w.run('diff'); self.ncmd += 1
-            self.count('samesec_equal_trusted')
-            if r.rc != 0:
-                return self.bad('samesec_equal', 'diff exits %d although size, time-stamp (s and ns) and inode of d1:f are unchanged' % r.rc)
+            cnt = counters(r)
+            self.count('samesec_equal_' + how)
+            exp_restore = 1 if (how == 'recreate' and usable) else 0
+            if r.rc != (2 if exp_restore else 0) or cnt['restored'] != exp_restore or cnt['updated']:
+                return self.bad('samesec_equal', 'diff exits %d with %s for d1:f with unchanged size and time-stamp (s and ns), %s inode, inodes %s'
+                                % (r.rc, cnt, 'new' if how == 'recreate' else 'same', 'usable' if usable else 'not usable'))
+            r, st = self.sync()
+            if r is None or not self.judge(st, 'sync'):
+                return
+            if r.rc != 0 or not self.all_blk(st):
+                return self.bad('sync_fails', 'sync exits %d' % r.rc)
+            if how == 'recreate':
+                self.final_check()
             return
         w.log.append(['samesec', how, 'recorded', rec_ns, 'new', new_ns])
         self.count('samesec_%s_%s' % ('rec0' if rec_zero else 'recx', new))
@@ -408,6 +435,105 @@ class Scn:
         if r.rc != 0:
             return self.bad('sync_fails', 'sync exits %d' % r.rc)
         self.final_check()
+
+    def rehash(self, what, decoy):
+        """a hash migration in progress (`rehash`: every block waits to be re-hashed with the new kind): a file under rehash is not a
+        stable source for copy detection; pre-hash, sync and the import/search fetch of fix use the PREVIOUS hash kind for such
+        blocks.  The sync loop of the model does not cover rehash: these runs are judged by the oracles (check, parity, bytes)"""
+        w, a, rng = self.w, self.w.arr, self.rng
+        size = rng.choice([2048, 2500, 3072])
+        w.write('d1', 'a', rng.randbytes(size), w.stamp(zero_ns=False))
+        w.write('d2', 'pad', rng.randbytes(size if what != 'copy' else 1000))     # copy: the new file shares stripes with blocks waiting for a rehash
+        r, st = self.sync()
+        if r is None or not self.judge(st, 'the initial sync') or r.rc != 0:
+            return
+        w.murmur = False                      # from now on the tool prefers its default hash: the array is migrated
+        r = w.run('rehash'); self.ncmd += 1
+        st = w.content()
+        if r.rc != 0 or st['prevhash'] is None or not all(i and i['rehash'] for i in st['info']):
+            return self.bad('rehash_cmd', 'rehash exits %d, previous hash %s' % (r.rc, st['prevhash']))
+        self.count('rehash_' + what)
+        if what == 'copy':
+            self.plant('d2', 'a', 'd1', 'a', decoy=decoy)
+            st0, lst = w.content(), w.listing()
+            pred = c11_model.predict_scan(self, st0, lst) if self.model else None
+            r = w.run('diff'); self.ncmd += 1
+            cnt = counters(r)
+            if cnt['copied'] != 0 or cnt['added'] != 1:
+                return self.bad('copy_under_rehash', 'hashes of a file whose blocks wait for a rehash are inherited: %s' % cnt)
+            if pred and not pred['aborted'] and pred['counters'] != cnt:
+                c11_model.note_drift(self, 'drift_diff', 'the scan model predicts %s, the real diff reports %s (source under rehash)' % (pred['counters'], cnt), request=pred['request'][:6000])
+            r = w.run('sync', *(['-h'] if rng.random() < 0.5 else []), '--force-empty', '--force-zero'); self.ncmd += 1
+            st = w.content()
+            if r.rc != 0 or not self.all_blk(st):
+                return self.bad('sync_fails', 'sync during a hash migration exits %d' % r.rc, err=r.err[-300:])
+            for e in (a.check_map(st) + a.check_parity(st)[0])[:1]:
+                return self.bad('c06_oracle', 'after a sync during a hash migration: %s' % e)
+            return self.final_check()
+        # fix with an import directory while the blocks still carry hashes of the previous kind
+        vic, oth = open(w.p('d1', 'a'), 'rb').read(), open(w.p('d2', 'pad'), 'rb').read()
+        m = os.stat(w.p('d1', 'a')).st_mtime_ns
+        imp = os.path.join(a.root, 'import')
+        dec = bytes((x ^ rng.randint(1, 255)) for x in vic)
+        for n, data in (('a', dec), ('zz/a', vic)):
+            q = os.path.join(imp, n)
+            os.makedirs(os.path.dirname(q), exist_ok=True)
+            open(q, 'wb').write(data)
+            mm = m if (what == 'import_stamp' or data is dec) else m + 7 * 10**9
+            os.utime(q, ns=(mm, mm))
+        os.unlink(w.p('d1', 'a')); os.unlink(w.p('d2', 'pad'))
+        w.log.append(['lose', 'd1:a', 'd2:pad', what])
+        r = w.run('fix', *(['-i', imp] if what == 'import_stamp' else ['--test-import-content', imp])); self.ncmd += 1
+        for (d, sub, wantb) in (('d1', 'a', vic), ('d2', 'pad', oth)):
+            q = w.p(d, sub)
+            got = open(q, 'rb').read() if os.path.isfile(q) else None
+            if got != wantb or r.rc != 0:
+                return self.bad('fix_rehash', 'fix (%s) during a hash migration exits %d and %s:%s is %s' % (what, r.rc, d, sub, 'missing' if got is None else ('the DECOY' if got == dec else 'restored' if got == wantb else 'wrong')),
+                                tags=(r.tag('status:') + r.tag('unrecoverable:'))[:6])
+
+    def past_import(self, how):
+        """fix must not fill a lost, never hashed (CHG) block with imported / duplicate data that only matches the PAST hash kept in the
+        block (the hash of the deleted file it was allocated over): OLD synced, then moved out of the array (import directory) or
+        elsewhere inside it (duplicate search); NEW (same size and time-stamp, other bytes) allocated over OLD's positions and
+        recorded by a partial sync that does not reach its stripes; NEW lost; fix with the import available"""
+        w, a, rng = self.w, self.w.arr, self.rng
+        size = rng.choice([1024, 2048, 1500])
+        m = w.stamp(zero_ns=rng.random() < 0.3)
+        w.write('d1', 'AAA', rng.randbytes(2048))
+        w.write('d1', 'OLD', rng.randbytes(size), m)
+        w.write('d2', 'KEEP', rng.randbytes(6 * 1024))
+        r, st = self.sync()
+        if r is None or not self.judge(st, 'the initial sync') or r.rc != 0:
+            return
+        old = open(w.p('d1', 'OLD'), 'rb').read()
+        imp = os.path.join(a.root, 'import')
+        if how == 'dup':
+            dst = w.p('d2', 'elsewhere/OLDCOPY')
+        else:
+            dst = os.path.join(imp, 'sub', 'OLD')
+        os.makedirs(os.path.dirname(dst), exist_ok=True)
+        open(dst, 'wb').write(old); os.utime(dst, ns=(m, m))
+        os.unlink(w.p('d1', 'OLD'))
+        new = bytes((x ^ rng.randint(1, 255)) for x in old)
+        w.write('d1', 'NEW', new, m)
+        w.log.append(['OLD-moved-to', how, 'NEW-over-its-blocks'])
+        r, st = self.sync('-S', '4', nokill=True)    # ONE sync, beyond the stripes of NEW: it stays CHG with the past hash of OLD (a second load would clear it)
+        if r is None or not self.judge(st, 'sync -S 4'):
+            return
+        f = self.entry(st, 'd1', 'NEW')
+        if r.rc != 0 or f is None or any(b[0] != 'CHG' or b[2] in (b'\x00' * 16, b'\xff' * 16) for b in f['blocks']):
+            return                                   # the layout did not produce the situation
+        self.count('past_import_' + how)
+        os.unlink(w.p('d1', 'NEW')); w.log.append(['lose', 'd1:NEW'])
+        opts = {'dup': [], 'stamp': ['-i', imp], 'content': ['--test-import-content', imp]}[how]
+        r = w.run('fix', *opts); self.ncmd += 1
+        q = w.p('d1', 'NEW')
+        got = open(q, 'rb').read() if os.path.isfile(q) else None
+        if got is not None and got != new:
+            return self.bad('fix_past_hash', 'fix %s (exit %d) recreates d1:NEW, a never synced file, with %s: data that only matches the PAST hash of its blocks was accepted'
+                            % (' '.join(opts[:1]), r.rc, 'the bytes of the file that occupied its blocks before' if got == old else 'wrong bytes'), tags=(r.tag('status:') + r.tag('hash_import'))[:6])
+        if got is None and r.rc == 0:
+            return self.bad('fix_silent', 'fix exits 0 although d1:NEW could not be restored')
 
     def import_decoy(self, how, with_true, decoy_first):
         """fix with import directories / duplicates: two files of one stripe range are lost with one parity, so parity alone
@@ -465,15 +591,16 @@ class Scn:
 
 def configs(rng, n):
     out = []
-    kinds = ['copy', 'copy', 'copy', 'rename', 'partial', 'import', 'import', 'rep', 'samesec', 'samesec', 'uuidflip']
+    kinds = ['copy', 'copy', 'copy', 'rename', 'partial', 'import', 'import', 'rep', 'samesec', 'samesec', 'uuidflip', 'rehash', 'past_import']
     for i in range(n):
         k = kinds[i % len(kinds)]
-        out.append({'kind': k, 'nd': 3 if k == 'rep' or rng.random() < 0.3 else 2, 'np': 1 if k == 'import' else rng.choice([1, 2]), 'order': 'alpha',
+        out.append({'kind': k, 'nd': 3 if k == 'rep' or rng.random() < 0.3 else 2, 'np': 1 if k == 'import' else (2 if k == 'past_import' else rng.choice([1, 2])), 'order': rng.choice(ORDERS),
                     'uuid': rng.random() < 0.5, 'where': 'tmpfs', 'seed': rng.getrandbits(32), 'i': i,
                     'variant': ['plain', 'prehash', 'nocopy'][(i // len(kinds) + i) % 3] if k == 'copy' else rng.choice(['stamp', 'content', 'dup']),
                     'nsec_zero': rng.random() < 0.4, 'same_path': rng.random() < 0.5, 'decoy': rng.random() < 0.8,
                     'with_true': rng.random() < 0.5, 'decoy_first': rng.random() < 0.5, 'other_name': k == 'copy' and rng.random() < 0.2,
-                    'rec_zero': rng.random() < 0.5, 'new': rng.choice(['zero', 'zero', 'equal', 'other']), 'how': rng.choice(['inplace', 'recreate']), 'to_fake': rng.random() < 0.6})
+                    'rec_zero': rng.random() < 0.5, 'new': rng.choice(['zero', 'zero', 'equal', 'other']), 'how': rng.choice(['inplace', 'recreate']), 'to_fake': rng.random() < 0.6,
+                    'empty_source': k == 'copy' and rng.random() < 0.08, 'rehash_what': rng.choice(['copy', 'copy', 'import_stamp', 'import_content'])})
     return out
 
 
@@ -495,6 +622,10 @@ def run_one(chk, binary, shim, model, cfg):
             S.samesec(cfg['rec_zero'], cfg['new'], cfg['how'])
         elif k == 'uuidflip':
             S.uuidflip(cfg['to_fake'])
+        elif k == 'rehash':
+            S.rehash(cfg['rehash_what'], cfg['decoy'])
+        elif k == 'past_import':
+            S.past_import(cfg['variant'])
         if S.model and S.ok:
             c11_model.flush_drift(S)
     finally:
